@@ -111,12 +111,19 @@ def _inline_unknown_helpers(tree: ast.Module) -> int:
             for m in n.body:
                 if isinstance(m, ast.FunctionDef) and unknown(m.name) and simple(m) and m.args.args and m.args.args[0].arg == "self":
                     methods[(n.name, m.name)] = m
-    if not funcs and not methods:
-        return 0
     count = [0]
     serial = [0]
 
-    def callee_of(call, cls_name):
+    def callee_of(call, cls_name, host=None):
+        if isinstance(call.func, ast.Name) and host is not None and re.search(r"\b" + re.escape(call.func.id) + r"\b", known) is None:
+            # a sibling closure: a helper nested in a function that encloses the caller
+            p_ = getattr(host, "_parent", None)
+            while p_ is not None:
+                if isinstance(p_, ast.FunctionDef):
+                    for d_ in p_.body:
+                        if isinstance(d_, ast.FunctionDef) and d_.name == call.func.id and d_ is not host and simple(d_):
+                            return d_, None
+                p_ = getattr(p_, "_parent", None)
         if isinstance(call.func, ast.Name) and call.func.id in funcs:
             return funcs[call.func.id], None
         if isinstance(call.func, ast.Attribute) and cls_name is not None and (cls_name, call.func.attr) in methods \
@@ -125,7 +132,7 @@ def _inline_unknown_helpers(tree: ast.Module) -> int:
         return None, None
 
     def expand(st, call, target_kind, cls_name, host):
-        g, recv = callee_of(call, cls_name)
+        g, recv = callee_of(call, cls_name, host)
         if g is None or g is host or any(isinstance(a_, ast.Starred) for a_ in call.args) or any(k_.arg is None for k_ in call.keywords):
             return None
         params = [a_.arg for a_ in g.args.args] + [a_.arg for a_ in g.args.kwonlyargs]
@@ -179,12 +186,34 @@ def _inline_unknown_helpers(tree: ast.Module) -> int:
                 tail = [ast.copy_location(ast.Assign(targets=st.targets, value=val), st)]
             elif target_kind == "return":
                 tail = [ast.copy_location(ast.Return(value=val), st)]
-            elif target_kind == "expr":
-                tail = [ast.copy_location(ast.Expr(value=val), st)]
+            elif target_kind == "expr" and not isinstance(val, (ast.Name, ast.Constant)):
+                tail = [ast.copy_location(ast.Expr(value=val), st)]  # a discarded name / constant has no effect and is dropped
         elif target_kind == "assign":
             tail = [ast.copy_location(ast.Assign(targets=st.targets, value=ast.Constant(value=None)), st)]
         elif target_kind == "return":
             tail = [ast.copy_location(ast.Return(value=ast.Constant(value=None)), st)]
+        # constant arguments are propagated into the inlined statements (so that e.g. setattr(obj, <name>, v) becomes obj.<name> = v)
+        consts = {b_.targets[0].id: b_.value for b_ in binds if isinstance(b_.value, ast.Constant)}
+        if consts:
+            class Prop(ast.NodeTransformer):
+                def visit_Name(self, node):
+                    if isinstance(node.ctx, ast.Load) and node.id in consts:
+                        return ast.copy_location(ast.Constant(value=consts[node.id].value), node)
+                    return node
+            rebound = {n_.id for s_ in body + tail for n_ in ast.walk(s_) if isinstance(n_, ast.Name) and isinstance(n_.ctx, ast.Store)}
+            consts = {k_: v_ for k_, v_ in consts.items() if k_ not in rebound}
+            body = [Prop().visit(s_) for s_ in body]
+            tail = [Prop().visit(s_) for s_ in tail]
+            binds = [b_ for b_ in binds if b_.targets[0].id not in consts]
+
+        def attr_form(s_):
+            if isinstance(s_, ast.Expr) and isinstance(s_.value, ast.Call) and isinstance(s_.value.func, ast.Name) and s_.value.func.id == "setattr" \
+                    and len(s_.value.args) == 3 and isinstance(s_.value.args[1], ast.Constant) and isinstance(s_.value.args[1].value, str) \
+                    and s_.value.args[1].value.isidentifier():
+                o_, k_, v_ = s_.value.args
+                return ast.copy_location(ast.Assign(targets=[ast.Attribute(value=o_, attr=k_.value, ctx=ast.Store())], value=v_), s_)
+            return s_
+        body = [attr_form(s_) for s_ in body]
         out = binds + body + tail
         for o_ in out:
             ast.fix_missing_locations(o_)
